@@ -1,4 +1,5 @@
 import LassoProofs.Lemmas.Views
+import LassoModel.Extracted
 import LassoProofs.C02
 /-
   C06 — reader and resolver views preserve every association of their source.
@@ -89,5 +90,16 @@ theorem reader_into_resolver (env : Env) (rd : Reader) (k : Nat) :
 returns a changed view, every query above is a function `View → Answer`, so the answers cannot depend
 on how queries of different threads interleave.  This clause of the property is therefore covered
 only structurally by the model and empirically by the harness (`partial`, see DESIGN.md). -/
+
+/-! ### Tie to the source
+
+In the model a reader / resolver made from a `Rodeo` (or a resolver made from a reader) *is* the same
+fields (`rodeo_views_same`).  The bodies of the three conversions regenerated from the source only
+destructure `self` and hand the fields to the view's constructor. -/
+theorem conversion_bodies_move_fields :
+    Extracted.rodeoIntoReaderBody = .moves (.readerNew [.map, .hasher, .strings, .arena]) ∧
+    Extracted.rodeoIntoResolverBody = .moves (.resolverNew [.strings, .arena]) ∧
+    Extracted.readerIntoResolverBody = .moves (.resolverNew [.strings, .arena]) := by
+  decide
 
 end Lasso.C06
